@@ -201,12 +201,13 @@ Proof.
   intros N1 N2 Hl Hp. apply parse_host_equiv; auto using name_plain_host_text. now apply parse_hostname_case.
 Qed.
 
-(* "scheme://U hn pp R" and "scheme://U hn' pp R": U empty or "userinfo@", hn / hn' host texts that the host-name parser
-   treats alike, pp the port text, R the rest *)
-Theorem parse_network_host_equiv url url' scheme dport (u : option str) hn hn' pp R :
+(* "scheme://U hn pp R" and "scheme://U hn' pp R": U empty or "userinfo@", pp the port text, R the rest; the host parser gives the
+   same answer for "hn pp" and "hn' pp" and both or neither are bracketed *)
+Theorem parse_network_host_gen url url' scheme dport (u : option str) hn hn' pp R :
   default_port scheme = Some dport ->
   (forall x, u = Some x -> memb 64 x = false /\ memb 47 x = false /\ memb 63 x = false /\ memb 35 x = false) ->
-  plain_host_text hn -> plain_host_text hn' -> parse_hostname idna_o ipv6_o int_o hn = parse_hostname idna_o ipv6_o int_o hn' -> port_text pp ->
+  parse_host idna_o ipv6_o int_o (hn ++ pp) = parse_host idna_o ipv6_o int_o (hn' ++ pp) ->
+  startswith (hn ++ pp) [91] = startswith (hn' ++ pp) [91] -> port_text pp ->
   memb 47 hn = false -> memb 63 hn = false -> memb 35 hn = false -> memb 64 hn = false ->
   memb 47 hn' = false -> memb 63 hn' = false -> memb 35 hn' = false -> memb 64 hn' = false ->
   rest_ok R ->
@@ -220,7 +221,7 @@ Theorem parse_network_host_equiv url url' scheme dport (u : option str) hn hn' p
   | _, _ => False
   end.
 Proof.
-  intros Hd Hu N1 N2 Hl Hp h47 h63 h35 h64 h47' h63' h35' h64' HR U.
+  intros Hd Hu HPH HV6 Hp h47 h63 h35 h64 h47' h63' h35' h64' HR U.
   assert (Hpp : memb 47 pp = false /\ memb 63 pp = false /\ memb 35 pp = false /\ memb 64 pp = false).
   { destruct Hp as [-> | [port [-> [Hdig _]]]]; [auto|].
     cbn [memb orb N.eqb Pos.eqb]. repeat split; apply digits_no; try exact Hdig; lia. }
@@ -243,7 +244,7 @@ Proof.
   rewrite (split_remaining_shift _ R a47 a63 a35 HR), (split_remaining_shift _ R a47' a63' a35' HR).
   destruct (split_remaining R) as [[[[a0 resource] path] query] fragment].
   rewrite (PA hn h64), (PA hn' h64').
-  rewrite (parse_host_equiv hn hn' pp N1 N2 Hp Hl).
+  rewrite HPH.
   destruct (parse_host idna_o ipv6_o int_o (hn' ++ pp)) as [[h port]|k]; cbn [bind]; [|reflexivity].
   destruct (parse_userinfo _) as [username password].
   destruct (is_nil h); [reflexivity|].
@@ -254,9 +255,32 @@ Proof.
   destruct (normalize_userpart enc password_encode_set _); cbn [bind]; [|reflexivity].
   split; [|repeat split; reflexivity].
   unfold url_of, is_ipv6. cbn [u_scheme u_username u_password u_host u_hostname u_port u_path u_query]. rewrite Hd.
-  destruct N1 as [_ [H91 [_ Hne]]]. destruct N2 as [_ [H91' [_ Hne']]].
-  rewrite (startswith_app_ne2 hn pp 91 Hne), (startswith_app_ne2 hn' pp 91 Hne').
-  now rewrite (startswith_no 91 hn H91), (startswith_no 91 hn' H91').
+  now rewrite HV6.
+Qed.
+
+(* ... for host texts without colon and brackets that the host-name parser treats alike *)
+Theorem parse_network_host_equiv url url' scheme dport (u : option str) hn hn' pp R :
+  default_port scheme = Some dport ->
+  (forall x, u = Some x -> memb 64 x = false /\ memb 47 x = false /\ memb 63 x = false /\ memb 35 x = false) ->
+  plain_host_text hn -> plain_host_text hn' -> parse_hostname idna_o ipv6_o int_o hn = parse_hostname idna_o ipv6_o int_o hn' -> port_text pp ->
+  memb 47 hn = false -> memb 63 hn = false -> memb 35 hn = false -> memb 64 hn = false ->
+  memb 47 hn' = false -> memb 63 hn' = false -> memb 35 hn' = false -> memb 64 hn' = false ->
+  rest_ok R ->
+  let U := match u with Some x => x ++ [64] | None => [] end in
+  match parse_network enc idna_o ipv6_o int_o unq_o url scheme dport ([47; 47] ++ (U ++ hn ++ pp) ++ R),
+        parse_network enc idna_o ipv6_o int_o unq_o url' scheme dport ([47; 47] ++ (U ++ hn' ++ pp) ++ R) with
+  | Ok i, Ok i' => url_of enc i = url_of enc i' /\ u_scheme i = u_scheme i' /\ u_hostname i = u_hostname i' /\
+                   u_port i = u_port i' /\ u_path i = u_path i' /\ u_query i = u_query i' /\ u_fragment i = u_fragment i' /\
+                   u_username i = u_username i' /\ u_password i = u_password i'
+  | Err k, Err k' => k = k'
+  | _, _ => False
+  end.
+Proof.
+  intros Hd Hu N1 N2 Hl Hp. apply parse_network_host_gen; auto.
+  - now apply parse_host_equiv.
+  - destruct N1 as [_ [H91 [_ Hne]]]. destruct N2 as [_ [H91' [_ Hne']]].
+    rewrite (startswith_app_ne2 hn pp 91 Hne), (startswith_app_ne2 hn' pp 91 Hne').
+    now rewrite (startswith_no 91 hn H91), (startswith_no 91 hn' H91').
 Qed.
 
 (* host names that differ only in ASCII letter case *)
@@ -316,6 +340,66 @@ Theorem parse_network_ipv4 url url' scheme dport (u : option str) a a' v pp R :
   end.
 Proof.
   intros Hd Hu I1 I2 Hr T1 T2 Hp. apply parse_network_host_equiv; auto. now apply (parse_hostname_ipv4 a a' v).
+Qed.
+(* IPv6 literals: "[inner]" and "[inner']" whose inner texts the address library maps to the same compressed form (upper- or
+   lower-case hex, leading zeros, "::" placement, embedded IPv4 - all decided by ipaddress.IPv6Address, an oracle here) *)
+Definition ipv6_inner (x : str) : Prop :=
+  memb 37 x = false /\ memb 47 x = false /\ memb 63 x = false /\ memb 35 x = false /\ memb 64 x = false.
+
+Lemma parse_hostname_ipv6 x x' :
+  memb 37 x = false -> memb 37 x' = false -> ipv6_o x = ipv6_o x' ->
+  parse_hostname idna_o ipv6_o int_o (91 :: x ++ [93]) = parse_hostname idna_o ipv6_o int_o (91 :: x' ++ [93]).
+Proof.
+  intros H37 H37' He. unfold parse_hostname, parse_ipv6_hostname.
+  assert (S1 : forall y, startswith (91 :: y ++ [93]) [91] = true) by (intros y; cbn [startswith]; destruct (y ++ [93]); reflexivity).
+  assert (L1 : forall y, last_is (91 :: y ++ [93]) 93 = true).
+  { intros y. change (91 :: y ++ [93]) with ((91 :: y) ++ [93]). now rewrite last_is_app. }
+  assert (R1 : forall y, removelast (tl (91 :: y ++ [93])) = y) by (intros y; cbn [tl]; apply removelast_last).
+  rewrite !S1, !L1, !R1, H37, H37', He. reflexivity.
+Qed.
+
+Lemma parse_host_ipv6 x x' pp :
+  memb 37 x = false -> memb 37 x' = false -> ipv6_o x = ipv6_o x' -> port_text pp ->
+  parse_host idna_o ipv6_o int_o ((91 :: x ++ [93]) ++ pp) = parse_host idna_o ipv6_o int_o ((91 :: x' ++ [93]) ++ pp).
+Proof.
+  intros H37 H37' He Hp. pose proof (parse_hostname_ipv6 x x' H37 H37' He) as Hh.
+  unfold parse_host. destruct Hp as [-> | [port [-> [Hdig Hpne]]]].
+  - rewrite !app_nil_r.
+    assert (L1 : forall y, last_is (91 :: y ++ [93]) 93 = true).
+    { intros y. change (91 :: y ++ [93]) with ((91 :: y) ++ [93]). now rewrite last_is_app. }
+    rewrite !L1. now rewrite Hh.
+  - assert (Hp58 : memb 58 port = false) by (apply digits_no; [exact Hdig | lia]).
+    assert (L : forall y, last_is (y ++ 58 :: port) 93 = false).
+    { intros y. change (y ++ 58 :: port) with (y ++ [58] ++ port). rewrite app_assoc.
+      apply last_is_digits2; [exact Hpne | exact Hdig | lia]. }
+    rewrite !L. rewrite (rpartition_last 58 (91 :: x ++ [93]) port Hp58), (rpartition_last 58 (91 :: x' ++ [93]) port Hp58).
+    destruct (py_int int_o 10 port) as [z|]; [|reflexivity].
+    destruct ((z <? 0)%Z || (65535 <? z)%Z); [reflexivity|]. now rewrite Hh.
+Qed.
+
+Theorem parse_network_ipv6 url url' scheme dport (u : option str) x x' pp R :
+  default_port scheme = Some dport ->
+  (forall y, u = Some y -> memb 64 y = false /\ memb 47 y = false /\ memb 63 y = false /\ memb 35 y = false) ->
+  ipv6_inner x -> ipv6_inner x' -> ipv6_o x = ipv6_o x' -> port_text pp -> rest_ok R ->
+  let U := match u with Some y => y ++ [64] | None => [] end in
+  match parse_network enc idna_o ipv6_o int_o unq_o url scheme dport ([47; 47] ++ (U ++ (91 :: x ++ [93]) ++ pp) ++ R),
+        parse_network enc idna_o ipv6_o int_o unq_o url' scheme dport ([47; 47] ++ (U ++ (91 :: x' ++ [93]) ++ pp) ++ R) with
+  | Ok i, Ok i' => url_of enc i = url_of enc i' /\ u_scheme i = u_scheme i' /\ u_hostname i = u_hostname i' /\
+                   u_port i = u_port i' /\ u_path i = u_path i' /\ u_query i = u_query i' /\ u_fragment i = u_fragment i' /\
+                   u_username i = u_username i' /\ u_password i = u_password i'
+  | Err k, Err k' => k = k'
+  | _, _ => False
+  end.
+Proof.
+  intros Hd Hu [H37 [H47 [H63 [H35 H64]]]] [H37' [H47' [H63' [H35' H64']]]] He Hp HR.
+  assert (MB : forall c y, (91 =? c) = false -> (93 =? c) = false -> memb c y = false -> memb c (91 :: y ++ [93]) = false).
+  { intros c y E1 E2 Hy. cbn [memb]. rewrite E1, memb_app, Hy. cbn [memb orb]. now rewrite E2. }
+  assert (SW : forall y, startswith ((91 :: y ++ [93]) ++ pp) [91] = true).
+  { intros y. cbn [app startswith]. destruct ((y ++ [93]) ++ pp); reflexivity. }
+  exact (parse_network_host_gen url url' scheme dport u (91 :: x ++ [93]) (91 :: x' ++ [93]) pp R Hd Hu
+           (parse_host_ipv6 x x' pp H37 H37' He Hp) (eq_trans (SW x) (eq_sym (SW x'))) Hp
+           (MB 47 x eq_refl eq_refl H47) (MB 63 x eq_refl eq_refl H63) (MB 35 x eq_refl eq_refl H35) (MB 64 x eq_refl eq_refl H64)
+           (MB 47 x' eq_refl eq_refl H47') (MB 63 x' eq_refl eq_refl H63') (MB 35 x' eq_refl eq_refl H35') (MB 64 x' eq_refl eq_refl H64') HR).
 Qed.
 End HostCaseUrl.
 
@@ -475,5 +559,21 @@ Proof.
   destruct Hs as [_ [_ [_ [_ [_ Hd]]]]].
   exact (parse_network_ipv4 enc idna_o ipv6_o int_o unq_o url url' sc dport u a a' v pp R
            Hd Hu I1 I2 Hr T1 T2 Hp a47 a63 a35 a64 a47' a63' a35' a64' HR).
+Qed.
+(* "sch://U [x] pp R" and "sch://U [x'] pp R" with x, x' IPv6 texts of the same address *)
+Theorem parse_url_ipv6 sch sc dport (u : option str) x x' pp R :
+  scheme_text sch sc dport ->
+  (forall y, u = Some y -> memb 64 y = false /\ memb 47 y = false /\ memb 63 y = false /\ memb 35 y = false) ->
+  ipv6_inner x -> ipv6_inner x' -> ipv6_o x = ipv6_o x' -> port_text pp -> rest_ok R ->
+  let U := match u with Some y => y ++ [64] | None => [] end in
+  let rem := [47; 47] ++ (U ++ (91 :: x ++ [93]) ++ pp) ++ R in
+  let rem' := [47; 47] ++ (U ++ (91 :: x' ++ [93]) ++ pp) ++ R in
+  plain_text (sch ++ 58 :: rem) -> plain_text (sch ++ 58 :: rem') ->
+  same_url (parse (sch ++ 58 :: rem)) (parse (sch ++ 58 :: rem')).
+Proof.
+  intros Hs Hu I1 I2 He Hp HR U rem rem' P1 P2.
+  apply (parse_lift same_url sch sc dport rem rem' Hs P1 P2). intros url url'.
+  destruct Hs as [_ [_ [_ [_ [_ Hd]]]]].
+  exact (parse_network_ipv6 enc idna_o ipv6_o int_o unq_o url url' sc dport u x x' pp R Hd Hu I1 I2 He Hp HR).
 Qed.
 End WholeUrl.
